@@ -646,6 +646,12 @@ class Exec:
                 a = args[0]
                 return z3.If(a >= 0, a, -a) if isinstance(a, z3.ExprRef) else abs(a)
             if name in ('int',): return args[0]
+            if name == 'tuple' and len(args) == 1:
+                v = self.deref(ps, args[0])
+                # an immutable snapshot of a list: a new object with the same elements
+                if isinstance(v, SSeq): return self.alloc(ps, SSeq(v.len, v.arr))
+                if isinstance(v, SSeq2): return self.alloc(ps, SSeq2(v.len, v.lens, v.arrs))
+                raise Undecided('tuple() of unsupported value at line %d' % e.lineno)
             if name == 'max' and len(args) == 1:
                 v = self.deref(ps, args[0])
                 if isinstance(v, SSeq):
@@ -1105,6 +1111,11 @@ class Exec:
         lg_step = getattr(self.c, 'loop_ghost_step', {}).get(ordinal)
         if lg_init is not None:
             with S.symbolic_mode(): self.install_ghost(ps, lg_init(StateView(ps), StateView(old)), local=True)
+        # an invariant may take a 4th argument: the state on entry to THIS loop (values of the locals the body is going to change)
+        import inspect
+        if len(inspect.signature(inv).parameters) >= 4:
+            _inv0, _entry = inv, StateView(ps.fork())
+            inv = lambda view, kk, oldview: _inv0(view, kk, oldview, _entry)
         with S.symbolic_mode():
             self.oblige_inv('loop%d-invariant-on-entry' % ordinal, st.lineno, ps, inv(StateView(ps), z3.IntVal(0), StateView(old)))
         names, locs, fields = self.write_set(st.body, ps)
@@ -1120,6 +1131,13 @@ class Exec:
                 elif isinstance(v, z3.ExprRef): hv.env[nm] = fresh('h.' + nm, v.sort())
                 elif isinstance(v, (int, bool)): hv.env[nm] = fresh('h.' + nm, INT if not isinstance(v, bool) else BOOL)
                 else: del hv.env[nm]
+        # locals FIRST assigned inside this loop and read after it (declared by the sidecar with their shape): defined at the loop head /
+        # exit by an arbitrary value constrained by the invariant only; using them after the loop needs at least one iteration (a loop
+        # that does not run would leave them unbound: NameError)
+        for nm, shp in getattr(self.c, 'loop_defines', {}).get(ordinal, {}).items():
+            if nm not in hv.env:
+                hv.env[nm] = make_shape(shp, 'ld.' + nm, hv.heap)
+                self.oblige('loop%d-runs-at-least-once(defines %s)@L%d' % (ordinal, nm, st.lineno), ps, n >= 1, st.lineno, 'safety')
         for l in locs: hv.heap[l] = fresh_like(hv.heap[l], 'h%d' % l)
         if lg_init is not None:      # ghost locals of this loop are part of its write set
             for nm in [n_ for n_ in hv.env if n_.startswith('g_') and isinstance(hv.env[n_], Ref)]:
